@@ -7,7 +7,14 @@ import (
 	"fmt"
 	"os"
 	"path/filepath"
+	"reflect"
 	"sort"
+	"unsafe"
+
+	"google.golang.org/protobuf/proto"
+
+	"github.com/yorkie-team/yorkie/api/converter"
+	api "github.com/yorkie-team/yorkie/api/yorkie/v1"
 
 	"verifharness/internal/coqfmt"
 	"verifharness/internal/rng"
@@ -17,6 +24,37 @@ import (
 )
 
 func init() { register("erht", runErht) }
+
+// rhtLinks reads nodeMapByKey (key -> createdAt of the linked member, tombstoned or not).
+func rhtLinks(obj *crdt.Object) map[string]*time.Ticket {
+	f := reflect.ValueOf(obj).Elem().FieldByName("memberNodes")
+	rht := reflect.NewAt(f.Type(), unsafe.Pointer(f.UnsafeAddr())).Elem().Elem()
+	m := rht.FieldByName("nodeMapByKey")
+	m = reflect.NewAt(m.Type(), unsafe.Pointer(m.UnsafeAddr())).Elem()
+	out := map[string]*time.Ticket{}
+	it := m.MapRange()
+	for it.Next() {
+		out[it.Key().String()] = it.Value().Interface().(*crdt.ElementRHTNode).Element().CreatedAt()
+	}
+	return out
+}
+
+// rhtDump renders every member (id, key, value, movedAt, removedAt), sorted, and the links.
+func rhtDump(obj *crdt.Object, keyIdx map[string]int) (string, string) {
+	var nodes []string
+	for _, nd := range obj.RHTNodes() {
+		e := nd.Element()
+		nodes = append(nodes, coqfmt.Pair(ticketCoq(e.CreatedAt()),
+			coqfmt.Pair(coqfmt.Pair(coqfmt.Pair(coqfmt.N(uint64(keyIdx[nd.Key()])), coqfmt.Z(int64(e.(*crdt.Primitive).Value().(int32)))), optTk(e.MovedAt())), optTk(e.RemovedAt()))))
+	}
+	sort.Strings(nodes)
+	var links []string
+	for k, id := range rhtLinks(obj) {
+		links = append(links, coqfmt.Pair(coqfmt.N(uint64(keyIdx[k])), ticketCoq(id)))
+	}
+	sort.Strings(links)
+	return coqfmt.List(nodes), coqfmt.List(links)
+}
 
 func erhtCase(r *rng.R, res *Result) (string, bool, []Violation) {
 	var viol []Violation
@@ -40,7 +78,7 @@ func erhtCase(r *rng.R, res *Result) (string, bool, []Violation) {
 	keys := []string{"k1", "k2", "k3"}
 	var ids []*time.Ticket
 	var ops []string
-	nontriv := false
+	nontriv, purged := false, false
 	n := r.Range(3, 20)
 	for j := 0; j < n; j++ {
 		var op string
@@ -86,6 +124,7 @@ func erhtCase(r *rng.R, res *Result) (string, bool, []Violation) {
 			op = coqfmt.App("EPurge", ticketCoq(e.CreatedAt()))
 			res.count("op.purge")
 			nontriv = true
+			purged = true
 		}
 		var vis []string
 		ms := obj.Members()
@@ -110,7 +149,58 @@ func erhtCase(r *rng.R, res *Result) (string, bool, []Violation) {
 		nodes = append(nodes, coqfmt.Pair(ticketCoq(nd.Element().CreatedAt()), optTk(nd.Element().RemovedAt())))
 	}
 	sort.Strings(nodes)
-	return coqfmt.App("KErht", coqfmt.List(ops), coqfmt.List(nodes)), nontriv, viol
+	// the snapshot round trip (C02): members listed in an order the engine picks (the encoder
+	// ranges over a Go map), decoded by the real converter, and dumped in full
+	keyIdx := map[string]int{}
+	for i, k := range keys {
+		keyIdx[k] = i + 1
+	}
+	fullNodes, links := rhtDump(obj, keyIdx)
+	snap := "None"
+	if bs, err := converter.ObjectToBytes(obj); err == nil {
+		pb := &api.JSONElement{}
+		if err := proto.Unmarshal(bs, pb); err == nil && pb.GetJsonObject() != nil {
+			ns := pb.GetJsonObject().Nodes
+			tkKey := func(n *api.RHTNode) string {
+				pt := n.Element.GetPrimitive().CreatedAt
+				return fmt.Sprintf("%020d:%x:%010d", pt.Lamport, pt.ActorId, pt.Delimiter)
+			}
+			sort.Slice(ns, func(a, b int) bool { return tkKey(ns[a]) < tkKey(ns[b]) })
+			for i := len(ns) - 1; i > 0; i-- {
+				j := r.Intn(i + 1)
+				ns[i], ns[j] = ns[j], ns[i]
+			}
+			var order []string
+			for _, n := range ns {
+				pt := n.Element.GetPrimitive().CreatedAt
+				aid, err := time.ActorIDFromBytes(pt.ActorId)
+				if err != nil {
+					order = nil
+					break
+				}
+				order = append(order, ticketCoq(time.NewTicket(pt.Lamport, pt.Delimiter, aid)))
+			}
+			if bs2, err := proto.Marshal(pb); err == nil {
+				dec, err := converter.BytesToObject(bs2)
+				if err != nil {
+					viol = append(viol, Violation{Kind: "snapshot-decode-error", Detail: fmt.Sprintf("BytesToObject(ObjectToBytes(obj)): %v", err)})
+				} else {
+					dn, dl := rhtDump(dec, keyIdx)
+					snap = coqfmt.Some(coqfmt.Pair(coqfmt.List(order), coqfmt.Pair(dn, dl)))
+					// tables the engine purged by hand (in any order, then written to with old tickets) need not
+					// be tables a garbage-collected replica can hold; the direct oracle judges the others
+					if !purged && dec.Marshal() != obj.Marshal() {
+						viol = append(viol, Violation{Kind: "snapshot-roundtrip-differs", Detail: fmt.Sprintf("object %s decodes to %s", obj.Marshal(), dec.Marshal())})
+					}
+					res.count("case.snapshot-roundtrip")
+					if len(ns) >= 3 {
+						nontriv = true
+					}
+				}
+			}
+		}
+	}
+	return coqfmt.App("KErht", coqfmt.List(ops), coqfmt.List(nodes), fullNodes, links, snap), nontriv, viol
 }
 
 func counterCase(r *rng.R, res *Result) string {
